@@ -1,15 +1,14 @@
-SPECIFICATION SpecApi
+SPECIFICATION SpecL
 CONSTANTS
   Threads = {"t1"}
   Funcs = {"f1", "f2"}
-  FuncSeq <- MCFuncSeq
   Fakes = {"k1"}
   Sites = {1}
   SlotLen = 4
   MaxPatch = 3
-  PatchSizes = {2}
+  PatchSizes = {2, 3}
   Split <- MCSplit
-  MaxTramps = 4
+  MaxTramps = 3
   NVals <- MCNVals
   BoolSet = {"true"}
   GuardKinds = {"inj"}
@@ -29,18 +28,14 @@ CONSTANTS
   TrampFlushed = TRUE
   Regen = FALSE
   SavedFrom = "install"
-  RestoreMayFail = FALSE
+  RestoreMayFail = TRUE
   LockByHand = FALSE
   ForeignReuse = FALSE
   AllocAt = "hint"
-  UserCalls = TRUE
-  MaxUserCalls = 1
-  InstallKinds = {"jump", "bool"}
-  Faults = {}
-  SiteReuse = TRUE
   MaxLives = 1
-  Gates = {"ok"}
   MaxInstalls = 2
-CONSTRAINT CanonDrop
-INVARIANT Emit
+  MaxCtr = 2
+CONSTRAINT Bound
+INVARIANT TypeOK Mutex HolderIsLock IdleClean Reusable FreeOnce NoFault
+
 CHECK_DEADLOCK FALSE
